@@ -56,6 +56,7 @@ def init (mx base : Int) : St :=
 
 inductive Ev
   | start (k c : Bytes) (ttl now : Int)   -- a DoCache call for (k, c)
+  | startDone (k c : Bytes) (ttl now : Int) (err : Nat)  -- a DoCache call whose context is already done: nothing is written
   | exec (vsz pttl : Int)                 -- the server executes the oldest queued fetch; `pttl` = its PTTL answer
   | execFail (err : Nat)                  -- … and answers it with an error (abort, MOVED, …)
   | write (k : Bytes)                     -- some client writes `k`
@@ -79,6 +80,13 @@ def step (st : St) : Ev → St
     let r := Lru.flight st.store k c ttl now
     if st.store.closed then st   -- dead pipe: the call fails, nothing is sent
     else if r.2 = .send then { st with store := r.1, reqQ := st.reqQ ++ [(k, c)] }
+    else { st with store := r.1 }
+  | .startDone k c ttl now err =>
+    -- `Flight`; if the call became the fetcher, `DoMulti` returns the context error without writing the request
+    -- and the caller cancels its flight at once (`p.cache.Cancel(ck, cc, err)`)
+    let r := Lru.flight st.store k c ttl now
+    if st.store.closed then st
+    else if r.2 = .send then { st with store := Lru.cancel r.1 k c err }
     else { st with store := r.1 }
   | .exec vsz pttl =>
     match st.reqQ with
